@@ -234,6 +234,8 @@ fn kind(e: &E) -> &'static str {
         E::Math(..) => "builtin_call",
         E::Call(..) | E::CallE(..) | E::CallPack(..) => "call",
         E::If(..) => "if",
+        // a block whose first statement is an assignment reads as a record literal once it is inside parentheses
+        E::Block(ss, _) if matches!(ss.first(), Some(S::Assign(..))) => "block_starting_with_assignment",
         E::Block(..) => "block",
         E::Lambda(..) => "lambda",
         E::Tuple(_) => "tuple",
@@ -419,7 +421,8 @@ pub fn nth(p: &Prog, t: u64) -> Option<Variant> {
         let (k, d) = (t / 3, DEPTHS[(t % 3) as usize]);
         let (q, ctx) = paren_at(p, k, d);
         let role = ctx.split(' ').next().unwrap_or("").to_string();
-        return Some(Variant { source: print(&q), kind: "parens", what: format!("{d} pair(s) around node {k}: {ctx}"), tags: vec!["parens".into(), format!("parens_{d}"), format!("paren_role_{role}")] });
+        let node_kind = ctx.rsplit(' ').next().unwrap_or("").to_string();
+        return Some(Variant { source: print(&q), kind: "parens", what: format!("{d} pair(s) around node {k}: {ctx}"), tags: vec!["parens".into(), format!("parens_{d}"), format!("paren_role_{role}"), format!("paren_kind_{node_kind}")] });
     }
     let t = t - nodes * 3;
     if t < LAYOUTS.len() as u64 {
